@@ -359,6 +359,10 @@ def run(chk: Check) -> None:
     run_near_misses(chk, (6,) if chk.tier == "quick" else (6, 7))
     run_recursion(chk, prog)
     run_helper_recursion(chk, prog)
+    # no sticky state after a failure, with the real tokenizer and parser on concrete texts: histories around a text that
+    # fails to parse (the clause of C12.R7 restricted to them)
+    from .c12 import run_concrete_history
+    run_concrete_history(chk, prog, rid="C10.R8", focus="x +")
     run_function_tokens(chk, prog)
     scen = analyse_scenarios(str(REPO), 2 if chk.tier == "quick" else 3)
     chk.analysed["scenario_paths"] = len(scen)
